@@ -104,3 +104,30 @@ func VC09Run(op, n int) {
 	probe := vU16("probe")
 	vAssert("mem", bus.Peek(probe) == sb.Peek(probe))
 }
+
+// A block transfer on a flat 64K DumbMemory, then the caller attaches another
+// DumbMemory and the transfer goes on (or another one starts): the second Step
+// works on the memory attached now, like a fresh CPU with the same registers.
+func VC09SwapDumb(op int) {
+	var s States
+	vHavoc(&s, "s")
+	a := DumbMemory(vBytesN("dmA", 65536))
+	a.Set(s.PC, 0xed)
+	a.Set(s.PC+1, uint8(op))
+	c1 := &CPU{States: s, Memory: a}
+	c1.Step()
+	mid := c1.States
+	b1 := DumbMemory(vBytesN("dmB", 65536))
+	b2 := DumbMemory(vBytesN("dmB", 65536))
+	for _, m := range []DumbMemory{b1, b2} {
+		m.Set(mid.PC, 0xed)
+		m.Set(mid.PC+1, uint8(op))
+	}
+	c1.Memory = b1
+	c2 := &CPU{States: mid, Memory: b2}
+	c1.Step()
+	c2.Step()
+	vAssert("state", c1.States == c2.States)
+	probe := vU16("probe")
+	vAssert("mem", b1.Get(probe) == b2.Get(probe))
+}
